@@ -98,6 +98,68 @@ impl SessionMock {
     }
 }
 
+/// The server id as the operator configured it, through the application's own configuration reader — once through the
+/// environment layer (`PASSAGE_ADAPTERS_AUTHENTICATION_MOJANG_SERVERID`), once through a configuration file with the
+/// documented key `adapters.authentication.mojang.server_id` — and the application's adapter factory: number- or
+/// boolean-looking ids must reach the hash verbatim, and neither spelling may be dropped.
+pub fn config_id_cases(mock: &SessionMock, rng: &mut Rng) -> Vec<Case> {
+    let (rt, captured, reply) = (&mock.rt, mock.captured.clone(), mock.reply.clone());
+    let mut cases = vec![];
+    let dir = std::env::temp_dir().join(format!("pv-cfgid-{}", std::process::id()));
+    std::fs::create_dir_all(&dir).unwrap();
+    for (i, id) in ["justchunks", "", "007", "1e3", "TRUE", "+5", "12.50", "0x10", "null", " 7 ", "1_000", "lobby-7"].iter().enumerate() {
+        for via_file in [false, true] {
+            // SAFETY: this runner is single-threaded apart from the mock server, which does not read the environment
+            let cfg = if via_file {
+                let base = dir.join(format!("c{i}"));
+                std::fs::write(base.with_extension("yaml"), format!("adapters:\n  authentication:\n    mojang:\n      server_id: {}\n", serde_json::to_string(id).unwrap())).unwrap();
+                unsafe { std::env::set_var("CONFIG_FILE", &base); }
+                let c = passage::config::Config::read();
+                unsafe { std::env::remove_var("CONFIG_FILE"); }
+                c
+            } else {
+                unsafe { std::env::set_var("PASSAGE_ADAPTERS_AUTHENTICATION_MOJANG_SERVERID", id); }
+                let c = passage::config::Config::read();
+                unsafe { std::env::remove_var("PASSAGE_ADAPTERS_AUTHENTICATION_MOJANG_SERVERID"); }
+                c
+            };
+            let how = if via_file { "in the configuration file" } else { "in the environment" };
+            let secret = rng.bytes(16);
+            let public = rng.bytes(162);
+            let name = "Player";
+            let mut why = vec![];
+            *reply.lock().unwrap() = Reply::Profile;
+            captured.lock().unwrap().clear();
+            let mut seen: Option<Vec<u8>> = None;
+            match cfg {
+                Err(e) => why.push(format!("configuration with server id {id:?} {how} was not readable: {e}")),
+                Ok(cfg) => {
+                    match rt.block_on(passage::adapter::authentication::DynAuthenticationAdapter::from_config(cfg.adapters.authentication)) {
+                        Err(e) => why.push(format!("adapter factory failed: {e}")),
+                        Ok(adapter) => {
+                            let client: std::net::SocketAddr = "192.0.2.1:5".parse().unwrap();
+                            let uid = uuid::Uuid::from_u128(7);
+                            let _ = rt.block_on(adapter.authenticate(&client, ("h", 1), 767, (name, &uid), &secret, &public));
+                            let lines = captured.lock().unwrap().clone();
+                            if let Some(t) = lines.first().and_then(|l| l.split(' ').nth(1)) { let (_, params) = parse_target(t.as_bytes()); seen = params.into_iter().find(|(k, _)| k == b"serverId").map(|(_, v)| v); }
+                        }
+                    }
+                }
+            }
+            let want = crate::c11::ref_hash(id, &secret, &public);
+            if seen.as_deref() != Some(want.as_bytes()) { why.push(format!("server id configured as {id:?} {how}: the request carried serverId={:?}, the hash for that id is {want}", seen.as_ref().map(|h| String::from_utf8_lossy(h).to_string()))); }
+            cases.push(Case {
+                request: format!("c11.hash {} {} {}", hex(id.as_bytes()), hex(&secret), hex(&public)),
+                observed: seen.as_ref().map_or("no-request".into(), |h| hex(h)),
+                oracle: if why.is_empty() { None } else { Some(why.join("; ")) },
+                class: format!("config-{}:{}", if via_file { "file" } else { "env" }, if i < 2 || i == 11 { "plain" } else { "scalar-looking" }),
+            });
+        }
+    }
+    let _ = std::fs::remove_dir_all(&dir);
+    cases
+}
+
 pub fn run(a: &Args) {
     let mut rng = Rng::new(a.seed);
     let mock = SessionMock::start();
@@ -149,44 +211,7 @@ pub fn run(a: &Args) {
             class: format!("{}:{:?}", if name.chars().all(|c| c.is_ascii_alphanumeric() || c == '_') { "plain" } else if name.contains('&') || name.contains('=') { "injection" } else { "special" }, r),
         });
     }
-    // the server id as the operator configured it, through the application's own configuration reader (environment
-    // layer) and adapter factory: number- or boolean-looking ids must reach the hash verbatim
-    for (i, id) in ["justchunks", "", "007", "1e3", "TRUE", "+5", "12.50", "0x10", "null", " 7 ", "1_000"].iter().enumerate() {
-        // SAFETY: this runner is single-threaded apart from the mock server, which does not read the environment
-        unsafe { std::env::set_var("PASSAGE_ADAPTERS_AUTHENTICATION_MOJANG_SERVERID", id); }
-        let cfg = passage::config::Config::read();
-        unsafe { std::env::remove_var("PASSAGE_ADAPTERS_AUTHENTICATION_MOJANG_SERVERID"); }
-        let secret = rng.bytes(16);
-        let public = rng.bytes(162);
-        let name = "Player";
-        let mut why = vec![];
-        *reply.lock().unwrap() = Reply::Profile;
-        captured.lock().unwrap().clear();
-        let mut seen: Option<Vec<u8>> = None;
-        match cfg {
-            Err(e) => why.push(format!("configuration with server id {id:?} in the environment was not readable: {e}")),
-            Ok(cfg) => {
-                match rt.block_on(passage::adapter::authentication::DynAuthenticationAdapter::from_config(cfg.adapters.authentication)) {
-                    Err(e) => why.push(format!("adapter factory failed: {e}")),
-                    Ok(adapter) => {
-                        let client: std::net::SocketAddr = "192.0.2.1:5".parse().unwrap();
-                        let uid = uuid::Uuid::from_u128(7);
-                        let _ = rt.block_on(adapter.authenticate(&client, ("h", 1), 767, (name, &uid), &secret, &public));
-                        let lines = captured.lock().unwrap().clone();
-                        if let Some(t) = lines.first().and_then(|l| l.split(' ').nth(1)) { let (_, params) = parse_target(t.as_bytes()); seen = params.into_iter().find(|(k, _)| k == b"serverId").map(|(_, v)| v); }
-                    }
-                }
-            }
-        }
-        let want = crate::c11::ref_hash(id, &secret, &public);
-        if seen.as_deref() != Some(want.as_bytes()) { why.push(format!("server id configured as {id:?}: the request carried serverId={:?}, the hash for that id is {want}", seen.as_ref().map(|h| String::from_utf8_lossy(h).to_string()))); }
-        cases.push(Case {
-            request: format!("c11.hash {} {} {}", hex(id.as_bytes()), hex(&secret), hex(&public)),
-            observed: seen.as_ref().map_or("no-request".into(), |h| hex(h)),
-            oracle: if why.is_empty() { None } else { Some(why.join("; ")) },
-            class: format!("config-env:{}", if i < 2 { "plain" } else { "scalar-looking" }),
-        });
-    }
+    cases.extend(config_id_cases(&mock, &mut rng));
     // the name the connection handler asks about: the one claimed in Login Start, whatever cookie was presented
     cases.extend(crate::connrun::auth_name_cases(&mut rng, (a.cases / 10).max(24)));
     write_cases(&a.out, &cases).expect("write cases");
